@@ -265,7 +265,7 @@ impl Pattern {
 //@ end
 
 //@ extract src/pattern.rs : impl Pattern fn alternate_match
-//@ rewrite D6.rfind_char D6.find_char D6.split_comma D8.format3 D17.let_else_continue
+//@ rewrite D6.rfind_char D6.find_char D6.split_comma D6.split_terminator_comma D8.format3 D17.let_else_continue
     fn alternate_match(pattern: &str, pkg: &str) -> (r: bool)
         ensures r == amatch(pattern@, pkg@)
         decreases count_c(pattern@, '{'), 0nat
